@@ -1,4 +1,5 @@
 import Props.C03
+import Lemmas.UnkMono
 /-!
 # C08 — unknown options are never silently ignored: Fail errors, Warn warns, Pass passes
 -/
@@ -85,6 +86,69 @@ theorem parse_warnings (P : Prog) (args : List Str) (rem : List Str)
       cases hf : firstFail (parseArgs ext (P.node 0).mode P args).unk with
       | none => simp
       | some u => simp [hf] at h
+
+theorem firstFail_append (a : List (Str × UMode)) (u : Str) (m : List (Str × UMode)) :
+    ∃ v, firstFail (a ++ (u, .fail) :: m) = some v := by
+  induction a with
+  | nil => exact ⟨u, rfl⟩
+  | cons x r ih =>
+    obtain ⟨x1, x2⟩ := x
+    cases x2 with
+    | fail => exact ⟨x1, rfl⟩
+    | warn => simpa [firstFail] using ih
+    | pass => simpa [firstFail] using ih
+
+/-- **Whole command line, never dropped.**  An option token given where an option may start, whose
+name is not declared at that level (no require-order), is in the unknown-option log of the *finished*
+parse together with the unknown-mode of its level — whatever comes before and after it: the log
+only grows (`Lemmas/UnkMono.lean`). -/
+theorem unknown_never_dropped (P : Prog) (pre post : List Str) (t : Str) (p : Pair)
+    (he : (run ext mode P pre).err = none) (hc : (run ext mode P pre).ctx = .idle)
+    (hopt : isOption t mode = ([p], true))
+    (hr : resolve ((run ext mode P pre).P.node (run ext mode P pre).cur) p.opt = [])
+    (hro : ((run ext mode P pre).P.node (run ext mode P pre).cur).requireOrder = false) :
+    ∃ more, (parseArgs ext mode P (pre ++ t :: post)).unk =
+      (run ext mode P pre).unk ++ (p.opt, ((run ext mode P pre).P.node (run ext mode P pre).cur).umode) :: more := by
+  unfold parseArgs
+  rw [run_append]
+  simp only [List.foldl_cons]
+  have hd : t ≠ dashdash := by intro e; subst e; simp [isOption, dashdash] at hopt
+  have h1 : (step ext mode (run ext mode P pre) t).unk =
+      (run ext mode P pre).unk ++ [(p.opt, ((run ext mode P pre).P.node (run ext mode P pre).cur).umode)] := by
+    rw [step_head_option ext mode _ t [p] he hc hd hopt]
+    have hu := unknown_recorded ext { headState (run ext mode P pre) t with pending := [] } p
+      (by simpa [headState] using hr) (by simpa [headState] using hro)
+    unfold drain
+    simp only
+    have hctx : (procPair ext { headState (run ext mode P pre) t with pending := [] } p).ctx = .idle := by
+      rw [hu.2.2.1]; simpa [headState] using hc
+    have herr : (procPair ext { headState (run ext mode P pre) t with pending := [] } p).err = none := by
+      rw [hu.2.2.2.1]; simpa [headState] using he
+    simp only [herr, hctx, Option.isSome_none, Bool.false_eq_true, ↓reduceIte, drain]
+    rw [hu.1]; rfl
+  obtain ⟨m2, h2⟩ := foldl_unk_prefix ext mode post (step ext mode (run ext mode P pre) t)
+  obtain ⟨m3, h3⟩ := finish_unk_prefix ext (post.foldl (step ext mode) (step ext mode (run ext mode P pre) t))
+  exact ⟨m2 ++ m3, by rw [h3, h2, h1]; simp⟩
+
+/-- … hence in Fail mode the finished `Parse` returns an error and no remaining list. -/
+theorem unknown_fails_parse (P : Prog) (pre post : List Str) (t : Str) (p : Pair)
+    (he : (run ext (P.node 0).mode P pre).err = none) (hc : (run ext (P.node 0).mode P pre).ctx = .idle)
+    (hopt : isOption t (P.node 0).mode = ([p], true))
+    (hr : resolve ((run ext (P.node 0).mode P pre).P.node (run ext (P.node 0).mode P pre).cur) p.opt = [])
+    (hro : ((run ext (P.node 0).mode P pre).P.node (run ext (P.node 0).mode P pre).cur).requireOrder = false)
+    (hm : ((run ext (P.node 0).mode P pre).P.node (run ext (P.node 0).mode P pre).cur).umode = .fail) :
+    (parseUser ext P (pre ++ t :: post)).err ≠ none ∧ (parseUser ext P (pre ++ t :: post)).remaining = none := by
+  obtain ⟨more, hu⟩ := unknown_never_dropped ext (P.node 0).mode P pre post t p he hc hopt hr hro
+  rw [hm] at hu
+  cases hE : (parseArgs ext (P.node 0).mode P (pre ++ t :: post)).err with
+  | some e =>
+    unfold parseUser
+    simp [hE]
+  | none =>
+    obtain ⟨v, hv⟩ := firstFail_append (run ext (P.node 0).mode P pre).unk p.opt more
+    rw [← hu] at hv
+    obtain ⟨e, h1, h2⟩ := parse_fail_unknown ext P (pre ++ t :: post) v hE hv
+    exact ⟨by rw [h1]; simp, h2⟩
 
 /-! Non-vacuity: Fail names the first unknown; Warn warns once per unknown and keeps the tokens. -/
 example : (parseUser Demo.ext Demo.prog [b "--num=1", b "--zzz", b "x", b "-Q"]).err = some (.unknown (b "zzz")) := by
